@@ -85,17 +85,27 @@ AVM_DIVDEF(int32_t, i32, (-2147483647 - 1), 1) AVM_DIVDEF(int64_t, i64, (-922337
 /* MXCSR apart from the rounding-control field, which lives in __CPROVER_rounding_mode (same encoding) */
 unsigned int model_mxcsr = 0x1f80u;
 
-/* Float multiplication / division.  Default: the C operator in CBMC's IEEE theory.  With AVM_FP_UF the FPU operation
+/* Float + - * /.  Default: the C operator in CBMC's IEEE theory.  With AVM_FP_UF the FPU operation
  * is an uninterpreted symbol of (operands, rounding mode): used by the C10 routing proofs of * and /, where a bit-exact
  * multiplier / divider under four rounding modes per lane costs minutes per function for no additional insight. */
 #if defined(AVM_FP_UF) && !defined(AVM_NATIVE)
 float __CPROVER_uninterpreted_fmul32(float, float, int); float __CPROVER_uninterpreted_fdiv32(float, float, int);
 double __CPROVER_uninterpreted_fmul64(double, double, int); double __CPROVER_uninterpreted_fdiv64(double, double, int);
+float __CPROVER_uninterpreted_fadd32(float, float, int); float __CPROVER_uninterpreted_fsub32(float, float, int);
+double __CPROVER_uninterpreted_fadd64(double, double, int); double __CPROVER_uninterpreted_fsub64(double, double, int);
+#define AVM_FADD_f32(a, b) __CPROVER_uninterpreted_fadd32((a), (b), __CPROVER_rounding_mode)
+#define AVM_FSUB_f32(a, b) __CPROVER_uninterpreted_fsub32((a), (b), __CPROVER_rounding_mode)
+#define AVM_FADD_f64(a, b) __CPROVER_uninterpreted_fadd64((a), (b), __CPROVER_rounding_mode)
+#define AVM_FSUB_f64(a, b) __CPROVER_uninterpreted_fsub64((a), (b), __CPROVER_rounding_mode)
 #define AVM_FMUL_f32(a, b) __CPROVER_uninterpreted_fmul32((a), (b), __CPROVER_rounding_mode)
 #define AVM_FDIV_f32(a, b) __CPROVER_uninterpreted_fdiv32((a), (b), __CPROVER_rounding_mode)
 #define AVM_FMUL_f64(a, b) __CPROVER_uninterpreted_fmul64((a), (b), __CPROVER_rounding_mode)
 #define AVM_FDIV_f64(a, b) __CPROVER_uninterpreted_fdiv64((a), (b), __CPROVER_rounding_mode)
 #else
+#define AVM_FADD_f32(a, b) ((float)(a) + (float)(b))
+#define AVM_FSUB_f32(a, b) ((float)(a) - (float)(b))
+#define AVM_FADD_f64(a, b) ((double)(a) + (double)(b))
+#define AVM_FSUB_f64(a, b) ((double)(a) - (double)(b))
 #define AVM_FMUL_f32(a, b) ((float)(a) * (float)(b))
 #define AVM_FDIV_f32(a, b) ((float)(a) / (float)(b))
 #define AVM_FMUL_f64(a, b) ((double)(a) * (double)(b))
